@@ -7,6 +7,7 @@ import CSD.Model.Codes
 import CSD.Model.RePair
 import CSD.Model.RG
 import CSD.Model.RPDAC
+import CSD.Model.HashRP
 import CSD.Driver.Util
 
 namespace CSD.Driver
@@ -129,6 +130,41 @@ def checkRpdac (strsHex queriesHex prefHex t rules seqs loc abs pre : String) : 
   if modPre != specPre then "V model-locatePrefix-differs-from-spec" else
   "V ok"
 
+/-- The HASHRPDAC object exported by the real code against the exact table model (size, occupancy) and
+the hypotheses of `CSD.Hash.locateRP_eq` (`StoresRP`: the sequence at DAC position `id` expands to the
+string whose cell has rank `id`), and the model of the real `locate` run on those structures. -/
+def checkHrpdac (strsHex queriesHex hs ts occ t rules seqs loc abs : String) : String :=
+  let S : List Str := (splitComma strsHex).map unhex
+  let Q : List Str := (splitComma queriesHex).map unhex
+  let terminals := t.toNat?.getD 0
+  let rl := (splitComma rules).map fun e =>
+    match e.splitOn ":" with
+    | [a, b] => (a.toNat?.getD 0, b.toNat?.getD 0)
+    | _ => (0, 0)
+  let sq : List (List Nat) := if seqs == "-" then [] else (seqs.splitOn ";").map fun x => (x.splitOn ",").map fun y => y.toNat?.getD 0
+  let g : RePair.Grammar := { terminals := terminals, rules := rl }
+  let d := Hash.build (hs.toNat?.getD 0) S
+  if d.tsize != ts.toNat?.getD 0 then s!"V table-size model={d.tsize} code={ts}" else
+  let modOcc := String.ofList (d.table.map fun c => if c.isSome then '1' else '0')
+  if modOcc != occ then "V occupancy-bitmap-differs" else
+  if !g.wf then "V rule-refers-forward" else
+  if sq.length != S.length then s!"V sequences={sq.length}-strings={S.length}" else
+  if !(sq.all fun syms => syms.all fun x => x < terminals + rl.length) then "V sequence-symbol-out-of-range" else
+  -- StoresRP: DAC position id holds the string with ID id
+  if !((List.range S.length).all fun i =>
+        match Hash.extract d (i + 1), sq[i]? with
+        | some w, some syms => g.expand syms == Hash.natBytes w
+        | _, _ => false) then "V a-DAC-position-does-not-hold-the-string-with-that-ID" else
+  let implLoc := (splitComma loc).map fun x => x.toNat?.getD 0
+  let implAbs := (splitComma abs).map fun x => x.toNat?.getD 0
+  let modLoc := S.map fun s => Hash.locateRP d g sq s
+  let modAbs := Q.map fun q => Hash.locateRP d g sq q
+  if modLoc != implLoc.map some then "V model-locate-differs-from-code-on-a-member" else
+  if modAbs != implAbs.map some then "V model-locate-differs-from-code-on-a-query" else
+  if modLoc != (S.map fun s => some (Hash.locate d s)) then "V locateRP-differs-from-table-locate" else
+  if !(modAbs.zip Q).all (fun (r, q) => (r == some 0) == !(S.contains q)) then "V absent-query-not-answered-0" else
+  "V ok"
+
 /-- bit `k` of the hex-encoded byte string -/
 def bitsOfHex (h : String) (n : Nat) : List Bool :=
   let bytes := unhex h
@@ -171,6 +207,7 @@ def runCheckStreams (c : Case) (emit : Nat → String → IO Unit) : IO Unit := 
     | ["ctchk", kind, tbl] => emit k (checkCodeTable kind tbl)
     | ["rpchk", maxchar, input, t, bits, rules, seq] => emit k (checkRePair maxchar input t bits rules seq)
     | ["rdchk", strs, qs, ps, t, rules, seqs, loc, abs, pre] => emit k (checkRpdac strs qs ps t rules seqs loc abs pre)
+    | ["hdchk", strs, qs, hs, ts, occ, t, rules, seqs, loc, abs] => emit k (checkHrpdac strs qs hs ts occ t rules seqs loc abs)
     | ["rdskip"] => emit k "V ok"
     | "bv" :: impl :: par :: n :: h :: _ => emit k (bvLine impl (par.toNat?.getD 0) (n.toNat?.getD 0) h)
     | "wt" :: _ :: syms :: _ => emit k (wtLine syms)
